@@ -241,7 +241,7 @@ impl Property for C14 {
     }
     fn strategy(&self, tier: Tier) -> BoxedStrategy<Case> {
         let th = tier.thorough();
-        (((0usize..7).prop_map(|i| ALL_KINDS[i]), any::<bool>(), ratio_strategy(), rate_pair_strategy(if th { 640 } else { 320 }), chunk_strategy(if th { 4096 } else { 1024 }), 1usize..=4, 0u8..5), ((2usize..=32).prop_map(|k| 8 * k), 0.7f32..0.99, 16usize..=128, 0u8..4, 0u8..6, 0usize..400, 1.0f64..3.0, any::<bool>(), prop_oneof![2 => Just(None), 1 => (-1.0f64..=1.0).prop_map(Some)], 1.5f64..4.0, prop_oneof![3 => Just(None), 1 => (-1.0f64..=1.0).prop_map(Some)]))
+        (((0usize..7).prop_map(|i| ALL_KINDS[i]), any::<bool>(), ratio_strategy(), rate_pair_strategy(if th { 640 } else { 320 }), chunk_strategy(if th { 4096 } else { 1024 }), 1usize..=4, 0u8..5), ((2usize..=32, prop_oneof![3 => Just(0usize), 1 => 1usize..8]).prop_map(|(k, r)| 8 * k - r), 0.7f32..0.99, 16usize..=128, 0u8..4, 0u8..6, 0usize..400, 1.0f64..3.0, any::<bool>(), prop_oneof![2 => Just(None), 1 => (-1.0f64..=1.0).prop_map(Some)], 1.5f64..4.0, prop_oneof![3 => Just(None), 1 => (-1.0f64..=1.0).prop_map(Some)]))
             .prop_map(move |((kind, f32, ratio, rates, chunk, sub, degree), (sinc_len, f_cutoff, os, interp, window, n_off, sigma_mul, recipe, set_pos, max_rel, reuse))| {
                 let mut cfg = Config { kind, f32, ratio, rate_in: rates.0, rate_out: rates.1, chunk, sub_chunks: sub, degree, sinc_len, f_cutoff, os, interp, window, ..Config::default() };
                 if kind.is_async() {
